@@ -258,6 +258,25 @@ class Functor(pg_object.Object, utils.Functor):
     # pylint: enable=protected-access
     return typing.cast(Functor, other)
 
+  def sym_jsonify(self, **kwargs) -> utils.JSONValueType:
+    """Serializes the user specified arguments only.
+
+    Arguments that are not specified hold their default values, which will be
+    filled again at load time. Leaving them out keeps them unbound (thus still
+    providable at call time) after a JSON round trip.
+
+    Args:
+      **kwargs: Keyword arguments for `to_json`.
+
+    Returns:
+      A JSON dict.
+    """
+    json_dict = super().sym_jsonify(**kwargs)
+    return {
+        k: v for k, v in json_dict.items()
+        if k == utils.JSONConvertible.TYPE_NAME_KEY or k in self._specified_args
+    }
+
   def _on_change(self, field_updates: Dict[utils.KeyPath, base.FieldUpdate]):
     """Custom handling field change to update bound args."""
     for relative_path, update in field_updates.items():
